@@ -8,7 +8,7 @@ import (
 
 func init() {
 	register("C07", Meta{
-		Explanation: "Static necessary conditions of import-managed restore: the scan that discovers used paths starts at the file, never prunes, records every identifier with a non-empty non-local path and every import spec (cgo always kept) and — by C13's Walk facts — reaches every identifier position; names are chosen in a deterministic order (map ranges in updateImports are order-insensitive or sorted with a total comparator); the conflict test consults exactly the set the chosen names go into; the name used in code and the alias written to the spec come pairwise from one call; the restorer's Alias map overrides source aliases; the path→name table has one writer and one reader; an expanded identifier is laid out like a source selector, takes its qualifier from the table, stays bare for dot-imports; the restorer writes the tree only inside updateImports. Does not decide exactness of the import set, block layout preservation or byte output.",
+		Explanation: "Static necessary conditions of import-managed restore: the scan that discovers used paths starts at the file, never prunes, records every identifier with a non-empty non-local path and every import spec (cgo always kept) and — by C13's Walk facts — reaches every identifier position; names are chosen in a deterministic order (map ranges in updateImports are order-insensitive or sorted with a total comparator); the conflict test consults exactly the set the chosen names go into; the name used in code and the alias written to the spec come pairwise from one call; the restorer's Alias map overrides source aliases; the path→name table has one writer and one reader; an expanded identifier is laid out like a source selector, takes its qualifier from the table, stays bare for dot-imports; the restorer writes the tree only inside updateImports. Does not decide exactness of the import set, block layout preservation or byte output. Roles of the import kinds on path conditions (R-ROLE): blank imports reach the alias table and are all marked required (but not for a package that is referred to), dot and blank imports get no name of their own and the name search is unreachable for them, a spec stays exactly when its path is required, no loop over the imports is left by break, the alias of `.`/`_` is handed on unchanged, an existing spec with another alias is renamed, and every name written into a spec is the alias chosen for its path. Declarations (R-ADD, R-GATE): marked for deletion only when no spec is kept, the final pass keeps exactly the unmarked ones, a declaration that receives new specs is not marked, a created declaration is in File.Decls on every path and spliced in without dropping one, only the lone import \"C\" is set aside, only import declarations are read as lists of import specs; parenthesis flags are written together and cleared only for one spec without comments; the conflict loop changes its candidate; the restorer's own path is compared without its vendor prefix.",
 		NotCovered:  []string{"exactness of the resulting import set for every configuration", "preservation of block order/decorations when nothing is added", "byte output through go/printer"},
 	}, func(e *Env) {
 		e.RDiscovery()
@@ -49,7 +49,7 @@ func init() {
 		e.C05Space()
 	})
 	register("C09", Meta{
-		Explanation: "Static necessary conditions on the resolution chain: every child position whose static type is *Ident is in the avoid table and vice versa (in both converters), every other position passes its static type; decorate's Ident case resolves without force under a resolver, decorateSelectorExpr forces Sel only; resolvePath filters declaring positions, passes (file, parent, field, ident) to the resolver, strips the vendor prefix from both operands of the local-path comparison, with vendor matched on whole path elements; resolver errors are checked and returned at every call site; the classification clauses of the two decorator resolvers (PkgName → imported path, field and universe exclusion, shadowing test, dot-import and duplicate-name errors) are present. The classification itself is a runtime fact about go/types objects and is not decided.",
+		Explanation: "Static necessary conditions on the resolution chain: every child position whose static type is *Ident is in the avoid table and vice versa (in both converters), every other position passes its static type; decorate's Ident case resolves without force under a resolver, decorateSelectorExpr forces Sel only; resolvePath filters declaring positions, passes (file, parent, field, ident) to the resolver, strips the vendor prefix from both operands of the local-path comparison, with vendor matched on whole path elements; resolver errors are checked and returned at every call site; the classification clauses of the two decorator resolvers (PkgName → imported path, field and universe exclusion, shadowing test, dot-import and duplicate-name errors) are present. The classification itself is a runtime fact about go/types objects and is not decided. fileOf returns a package's file exactly when it contains the identifier (no break in the loop); the syntax-only resolver returns an error for a nil file, keeps the caller's name resolver, and reads an import's alias under its nil test.",
 		NotCovered:  []string{"agreement with go/types on arbitrary programs (runtime facts about objects)", "agreement between the two resolvers"},
 	}, func(e *Env) {
 		e.RRoleFilter()
